@@ -61,7 +61,22 @@ def _size_tuple(size):
     return snp._shape(size)
 
 
+def _real(fn, *a, **k):
+    """conformance mode: delegate to NumPy's global RNG and lift the result into the model"""
+    import numpy as _rnp
+
+    snp = _np()
+    conv = lambda v: (snp.asarray(v) if isinstance(v, _rnp.ndarray) else raw(v))
+    r = getattr(_rnp.random, fn)(*[_rnp.asarray(x) if isinstance(x, snp.ndarray) else (float(x) if isinstance(x, (core.Q,)) else x) for x in a],
+                                 **{kk: (float(v) if isinstance(v, core.Q) else v) for kk, v in k.items()})
+    if isinstance(r, _rnp.ndarray):
+        return snp.asarray(r)
+    return box(raw(r))
+
+
 def binomial(n, p, size=None):
+    if core.CONCRETE[0]:
+        return _real("binomial", n, p, size=size)
     snp = _np()
     n_, p_ = raw(n), raw(p)
     shape = _size_tuple(size)
@@ -94,6 +109,8 @@ def binomial(n, p, size=None):
 
 
 def poisson(lam=1.0, size=None):
+    if core.CONCRETE[0]:
+        return _real("poisson", lam, size=size)
     snp = _np()
     lam_ = raw(lam)
     shape = _size_tuple(size)
@@ -117,6 +134,8 @@ def poisson(lam=1.0, size=None):
 
 
 def choice(a, size=None, replace=True, p=None):
+    if core.CONCRETE[0]:
+        return _real("choice", a, size=size, replace=replace, p=None if p is None else __import__("numpy").asarray(p))
     snp = _np()
     ex = core.cur()
     if isinstance(a, (int, core.I)) or (isinstance(a, core.SV)):
@@ -155,6 +174,8 @@ def choice(a, size=None, replace=True, p=None):
 
 
 def normal(loc=0.0, scale=1.0, size=None):
+    if core.CONCRETE[0]:
+        return _real("normal", loc, scale, size=size)
     snp = _np()
     ex = core.cur()
     shape = _size_tuple(size)
@@ -171,6 +192,14 @@ def shuffle(x):
     """arbitrary permutation in place: result cells are fresh symbols constrained to be a permutation
     (multiset equality through pairwise-distinct position symbols)."""
     snp = _np()
+    if core.CONCRETE[0]:
+        import numpy as _rnp
+
+        perm = _rnp.random.permutation(len(x))
+        old_cells = x.data
+        for j, i in enumerate(x.ix):
+            x.buf[i] = old_cells[int(perm[j])]
+        return
     ex = core.cur()
     a = x
     if not isinstance(a, snp.ndarray) or a.ndim != 1:
@@ -193,6 +222,10 @@ def permutation(x):
 
 
 def seed(s=None):
+    if core.CONCRETE[0]:
+        import numpy as _rnp
+
+        return _rnp.random.seed(s)
     _log("seed", {"seed": raw(s)}, None)
 
 
